@@ -37,7 +37,10 @@ is `skipRest`; `ElementID > 0x8000` is `readSpec`'s enterprise test; the `i > 0;
 means variable length for an element of any type) / `len8 == 255` are `dataLen`; the two field loops and `!ok` are `decFields`;
 `Version != …` / `Count < 1 || Count > 30` / `expectedLen > remainingLen` are the header validations; the sFlow
 sample / record loops and format switches are `Sflow.samples` / `flowRecords` / `counterRecords`;
-`HeaderLength > 1500`, `l != 16 && l != 28` are the F-series repairs' guards; the dissector length tests are the
+`HeaderLength > 1500`, `l != 16 && l != 28` are the F-series repairs' guards; of the F19 repairs, `len(sh.Header) > 0` is
+`Sflow.readHdr`, `d != nil` the `Option.map` in `flowRecord`'s raw-header arm, `rTypeLength != 16 && rTypeLength != 28`
+with its `continue` the extended-router skip of `flowRecord` (the `buf[i]` of `FlowSample.unmarshal` index a fixed
+3-octet buffer, the third `b[12]` of `decodeTCP` comes after the 20-octet test); the dissector length tests are the
 guards proved sufficient in `Props/C01Sflow`; of these, `hlen < IPv4HLen` is the lower bound in `Packet.ihlOctets` and
 `len(p.data) < hlen` the second test of `Packet.decodeIPv4` (F17 repair): it is the guard that covers the panic site
 `slice p.data[hlen:]` (`from? d hlen`; `hlen` is 20 … 60), and the `index p.data[0]` that computes `hlen` comes after
